@@ -118,3 +118,6 @@ Properties/C08.vos Properties/C08.vok Properties/C08.required_vos: Properties/C0
 Properties/C13.vo Properties/C13.glob Properties/C13.v.beautified Properties/C13.required_vo: Properties/C13.v Base/GoInt.vo Thrift/Model.vo
 Properties/C13.vio: Properties/C13.v Base/GoInt.vio Thrift/Model.vio
 Properties/C13.vos Properties/C13.vok Properties/C13.required_vos: Properties/C13.v Base/GoInt.vos Thrift/Model.vos
+Properties/C01.vo Properties/C01.glob Properties/C01.v.beautified Properties/C01.required_vo: Properties/C01.v Base/GoInt.vo
+Properties/C01.vio: Properties/C01.v Base/GoInt.vio
+Properties/C01.vos Properties/C01.vok Properties/C01.required_vos: Properties/C01.v Base/GoInt.vos
